@@ -211,6 +211,23 @@ func checkHistoryC(w *core.Worker, p *ParserDef, cfg0 Cfg, ops []histOp, cfgs []
 					n, _ := sipsp.ParseFLine(op.dirty, 0, &mo.m.FL)
 					sipsp.ParseHeaders(op.dirty, n, &mo.m.HL, &mo.m.PV)
 				})
+			} else if ho, ok := U.(*headersObj); ok {
+				// the caller uses the exported bookkeeping of the list itself: registers a
+				// first-of-type shortcut by hand and clears / sets type flags
+				core.Guard(func() {
+					for _, c := range op.dirty {
+						t := sipsp.HdrT(1 + int(c)%13)
+						h := sipsp.Hdr{Type: t, Name: sipsp.PField{Offs: 1, Len: 3}, Val: sipsp.PField{Offs: 5, Len: 9}}
+						switch c % 3 {
+						case 0:
+							ho.hl.SetHdr(&h)
+						case 1:
+							ho.hl.PFlags.Clear(t)
+						default:
+							ho.hl.PFlags.Set(t)
+						}
+					}
+				})
 			} else {
 				// list objects: several more calls add to the same object (pieces separated by
 				// a 0 byte; empty and blank pieces are calls, too)
@@ -352,6 +369,9 @@ func RunC12(r *core.Run) {
 					}
 				}
 				ops[i].dirty = d
+			}
+			if (p.Name == "ParseHeaders" || p.Name == "ParseHeaders+PHdrVals") && rr.Intn(4) == 0 {
+				ops[i].dirty = rr.RawBytes(rr.Range(1, 4))
 			}
 			if p.IsMsg && rr.Intn(5) == 0 {
 				d := histInput(rr, p, &cfg, corpus)
